@@ -16,6 +16,7 @@ PROPS["C12"] = prop(
     "5/C12", "auth-direct",
     [Unit("TestC12Token", "server/auth/token", quick=5000, thorough=60000, shards_quick=4, shards_thorough=16),
      Unit("TestC12APIKey", "server", quick=5000, thorough=60000, shards_quick=4, shards_thorough=16, fuzz="FuzzC12APIKey", fuzztime=60),
+     Unit("TestC12LongPollGate", "server", quick=600, thorough=20000, shards_quick=4, shards_thorough=16),
      Unit("TestC12Code", "server/auth/code", quick=12000, thorough=200000, shards_quick=4, shards_thorough=16),
      Unit("TestC12Basic", "server/auth/basic", quick=8, thorough=300, shards_quick=8, shards_thorough=16)],
     ["token serial numbers are generated in 0..65535 (the signed field is 16 bits wide) and expiry stays below 2106 (32-bit seconds)",
